@@ -105,3 +105,11 @@ CHECKS["C05"] = {
         _sub("TestC05_Txn", 2500, 80000, sq=16, st=16),
     ],
 }
+
+CHECKS["C15"] = {
+    "level": "exploration",
+    "subs": [
+        _sub("TestC15_Retry", 1500, 60000, sq=10, st=10),
+        _sub("TestC15_Attrs", 3000, 120000, sq=6, st=6),
+    ],
+}
